@@ -356,6 +356,78 @@ fn gen_cfg(src: &str, target: &str, pairs: &[String]) -> Result<BTreeMap<String,
     Ok(o.files)
 }
 
+/// Documentation links are rendered through the docs-URL table given on the command line (`-u crate:url`), a
+/// `HashMap`: repeated runs of the real binary (fresh processes, fresh hash seeds) must print the same URLs, also when
+/// several entries are prefixes of the linked crate's name and none matches it exactly.
+fn docs_url_probe(rep: &mut Report, thorough: bool) {
+    let src = "#[diplomat::bridge]\nmod ffi {\n    /// A thing.\n    #[diplomat::rust_link(alpha_beta_gamma::Thing, Struct)]\n    #[diplomat::rust_link(alpha_beta::other::Item, Struct, compact)]\n    #[diplomat::opaque]\n    pub struct Thing;\n    impl Thing {\n        /// Makes one.\n        #[diplomat::rust_link(alpha_beta_gamma::Thing::new, FnInStruct)]\n        #[diplomat::rust_link(alpha_delta::Thing::other, FnInStruct, compact)]\n        pub fn make() -> Box<Thing> { unimplemented!() }\n        /// Reads it.\n        #[diplomat::rust_link(alpha::Thing::get, FnInStruct)]\n        pub fn get(&self) -> u8 { 0 }\n    }\n}\n";
+    let extra: Vec<String> = ["-u", "alpha:https://a.example/docs", "-u", "alpha_beta:https://b.example/docs", "-u", "alpha_delta_x:https://c.example/docs", "-u", "*:https://fallback.example/docs"].iter().map(|s| s.to_string()).collect();
+    let runs = if thorough { 24 } else { 8 };
+    for target in ["cpp", "js", "dart"] {
+        let mut first: Option<BTreeMap<String, String>> = None;
+        for k in 0..runs {
+            let o = tool::cli_gen_args(&util::workdir("C14docs"), src, target, None, &["lib_name=somelib".to_string()], &extra);
+            rep.oracle_runs += 1;
+            rep.count("probe:docs-url-runs");
+            if !o.ran || o.code != Some(0) {
+                rep.oracle_fail("(c14 probe docs-urls)", "the command line failed on the docs-URL probe", json!({"backend": target, "exit": o.code, "stderr": o.stderr.lines().take(4).collect::<Vec<_>>()}));
+                break;
+            }
+            match &first {
+                None => first = Some(o.files),
+                Some(f) => {
+                    if *f != o.files {
+                        let diff: Vec<&String> = f.keys().filter(|k| f.get(*k) != o.files.get(*k)).collect();
+                        let (a, b) = diff.first().map(|k| { let x = f.get(*k).cloned().unwrap_or_default(); let y = o.files.get(*k).cloned().unwrap_or_default(); x.lines().zip(y.lines()).find(|(p, q)| p != q).map(|(p, q)| (p.to_string(), q.to_string())).unwrap_or_default() }).unwrap_or_default();
+                        rep.oracle_fail("(c14 probe docs-urls)", "two runs of the same backend on the same input differ", json!({"backend": target, "run": k, "differing_files": diff, "first_run_line": a, "this_run_line": b, "arguments": extra}));
+                        break;
+                    }
+                }
+            }
+        }
+    }
+}
+
+/// Locality with traits and callbacks in play (Kotlin and C generate code for traits): adding a type nothing refers
+/// to — in the same bridge module, in one of its own, before or after the others — leaves every other file as it was.
+fn trait_locality_probe(rep: &mut Report) {
+    let base_items = "    pub struct Sample { pub value: i32, pub weight: i32 }\n    pub trait Listener {\n        fn on_value(&self, v: i32) -> i32;\n        fn on_sample(&self, s: Sample) -> i32;\n        fn on_done(&self);\n    }\n    pub struct Dispatcher { pub count: i32 }\n    impl Dispatcher {\n        pub fn dispatch(l: impl Listener, v: i32) -> i32 { l.on_done(); l.on_value(v) }\n    }\n    #[diplomat::opaque]\n    pub struct Widget { held: Box<dyn Fn(i32) -> i32> }\n    impl Widget {\n        #[diplomat::attr(auto, constructor)]\n        pub fn new(transform: impl Fn(i32) -> i32 + 'static) -> Box<Self> { Box::new(Self { held: Box::new(transform) }) }\n        pub fn apply(&self, v: i32) -> i32 { (self.held)(v) }\n    }\n";
+    let base = format!("#[diplomat::bridge]\nmod ffi {{\n{base_items}}}\n");
+    let variants: [(&str, String); 4] = [
+        ("enum in its own module after", format!("{base}#[diplomat::bridge]\nmod zz {{\n    pub enum Zone {{ North, South }}\n}}\n")),
+        ("enum in its own module before", format!("#[diplomat::bridge]\nmod aa {{\n    pub enum Area {{ Big, Small }}\n}}\n{base}")),
+        ("enum in the same module", format!("#[diplomat::bridge]\nmod ffi {{\n{base_items}    pub enum Zone {{ North, South }}\n}}\n")),
+        ("opaque with a callback method in its own module", format!("{base}#[diplomat::bridge]\nmod zz {{\n    #[diplomat::opaque]\n    pub struct Zed;\n    impl Zed {{ pub fn each(&self, f: impl Fn(u8) -> u8) -> u8 {{ f(1) }} }}\n}}\n")),
+    ];
+    for target in ["kotlin", "c"] {
+        let o0 = tool::run_backend(&base, target);
+        rep.oracle_runs += 1;
+        if !o0.ok() {
+            rep.count(&format!("probe:trait-locality:{target}:{}", o0.status().split(':').next().unwrap_or("?")));
+            continue;
+        }
+        for (what, src) in &variants {
+            let o1 = tool::run_backend(src, target);
+            rep.oracle_runs += 1;
+            rep.count("probe:trait-locality");
+            if !o1.ok() { continue; }
+            for (name, text) in &o0.files {
+                // files that list all types (library interface, index) legitimately change
+                let base_name = name.rsplit('/').next().unwrap_or(name);
+                if matches!(base_name, "Lib.kt" | "diplomat_runtime.h") { continue; }
+                match o1.files.get(name) {
+                    Some(t1) if t1 == text => {}
+                    Some(t1) => {
+                        let (a, b) = text.lines().zip(t1.lines()).find(|(p, q)| p != q).map(|(p, q)| (p.to_string(), q.to_string())).unwrap_or_else(|| (format!("{} lines", text.lines().count()), format!("{} lines", t1.lines().count())));
+                        rep.oracle_fail(&format!("(c14 probe trait-locality {target})"), "adding an unreferenced type changed another type's file", json!({"backend": target, "added": what, "file": name, "before_line": a, "after_line": b}));
+                    }
+                    None => rep.oracle_fail(&format!("(c14 probe trait-locality {target})"), "adding an unreferenced type removed another type's file", json!({"backend": target, "added": what, "file": name})),
+                }
+            }
+        }
+    }
+}
+
 pub fn child(args: &[String]) {
     let src = std::fs::read_to_string(&args[1]).expect("read");
     let r = if args.len() > 2 { gen_cfg(&src, &args[0], &args[2..]) } else { gen(&src, &args[0]) };
@@ -645,5 +717,7 @@ pub fn main(args: &[String]) {
             }
         }
     }
+    docs_url_probe(&mut rep, thorough);
+    trait_locality_probe(&mut rep);
     rep.print();
 }
